@@ -20,7 +20,8 @@ CONSTANTS Kinds,       \* alphabet of doctest kinds for this run
           MaxDocs, MinDocs,
           Commands,    \* subset of {"all", "list", "named", "namedfunc"}
           Fronts,      \* subset of {"native", "pytest"}
-          Opts,        \* subset of {"none", "skip", "noell"}: default directive options given to the front end
+          Opts,        \* subset of {"none", "skip", "noell", "req"}: default directive options given to the front end
+                       \* ("req": +REQUIRES of an unmet condition)
           MaxHist,     \* bound on the length of a history (0: front-end mode only)
           Deviation
 
@@ -31,13 +32,13 @@ Disabled(k) == k \in {"disabled", "disabledfail"}
 \* outcome of the doctest run alone in a fresh process with environment e
 Solo3(k, e, o) ==
   CASE k = "faildirective" -> "failed"                      \* directives are applied before the skip test
-    [] o = "skip" -> "skipped"                              \* +SKIP as default option: nothing runs
+    [] o \in {"skip", "req"} -> "skipped"                   \* +SKIP / +REQUIRES(unmet) as default option: nothing runs
     [] k \in {"failout", "failexc", "disabledfail", "failcompile", "faildirective"} -> "failed"   \* the last two fail before any part runs
     [] k = "needell" -> (IF o = "noell" THEN "failed" ELSE "passed")   \* want with "..." needs ELLIPSIS
     [] k \in {"skipall", "comment"} -> "skipped"
     [] k = "trail" -> (IF e = 1 THEN "passed" ELSE "failed")
     [] OTHER -> "passed"
-NothingRuns3(k, o) == (o = "skip" /\ k # "faildirective") \/ k \in {"skipall", "comment"}
+NothingRuns3(k, o) == (o \in {"skip", "req"} /\ k # "faildirective") \/ k \in {"skipall", "comment"}
 
 -----------------------------------------------------------------------------
 VARIABLES
